@@ -64,6 +64,10 @@ pub fn valid_ident(s: &str) -> bool {
     if !(f == '_' || f.is_alphabetic()) {
         return false;
     }
+    // syn::parse_str tolerates surrounding white space: an identifier is identifier characters only
+    if !s.chars().all(|c| c == '_' || c.is_alphanumeric()) {
+        return false;
+    }
     // accept exactly what syn accepts
     syn::parse_str::<syn::Ident>(s).is_ok()
 }
@@ -359,7 +363,9 @@ pub fn run(run: &Run) {
     run.sample("exhaustive", 3, || json!({"ident": "aB_1é", "rule": "camelCase", "pos": "Field", "serde": oracle("aB_1é", "camelCase", Pos::Field), "typeshare": format!("{:?}", observe_batch(&[Case{ident:"aB_1é".into(), rule:"camelCase".into(), pos:Pos::Field, layout: 0}])[0])}));
     run.set_exhaustive(true);
     run.extra("exhaustive_scope", json!(format!("class-representative identifiers up to length {max_len}; the proptest part is sampled")));
-    search(run, &C16, run.tier.pick(40_000, 1_500_000));
+    search(run, &C16, run.tier.pick(40_000, 1_500_000));    if run.tier == Tier::Thorough {
+        crate::fuzz::campaign(run, "c16_rename", 3_000_000, 64);
+    }
 }
 
 pub fn replay(run: &Run, case: &serde_json::Value) -> Result<Vec<Violation>, String> {
